@@ -5,6 +5,12 @@ ROOT = os.path.dirname(os.path.dirname(os.path.abspath(__file__)))
 props = [json.loads(l) for l in open(os.path.join(ROOT, "properties.jsonl"))]
 
 CHECKS = {
+ "C03": dict(
+   category="proof",
+   text="Coq theorems for the integer-exact part (weighted alias/tree indices always in range with non-zero weight, no panic) and, on the ideal real-number sampler models, support theorems (Proofs/Support.v, as far as listed in evidence); the IEEE-level part of the property is decided by the direct oracle on the real code: support predicate + catch_unwind over the single-word-adversarial lattice (about 200 boundary words x positions) x parameter points of envelope E incl. integer extremes, seeded random streams, and the exhaustive sweep of all 2^24 high-bit patterns of one word for every f32 sampler, in debug and release builds. Known findings (Frechet, Gumbel, Exp1 tail, Zipf) are matched by class.",
+   note="The theorem part does not cover float rounding at the extreme draws; that part is exploration (exhaustive for f32 single positions). Trusted: harness support predicates, catch_unwind, watchdog.",
+   technique="Coq proof (integer/ideal parts) + exhaustive f32 draw enumeration and adversarial-word lattice on the real code",
+   design="DESIGN.md §6 C03"),
  "C01": dict(
    category="proof",
    text="Coq: every continuous sampler (20 families, f32 and f64) is modelled as a decision tree over exact real expressions, one node per rounded float operation of the source; for the six single-draw inverse-CDF families the model is proved to consume exactly one word and the event equivalence Q(u) <= x <-> u <= F(x) (resp. 1-F(x) <= u) is proved for all parameters, which is the documented law; the interval evaluator used to run the models is proved sound (evalI_sound). Every model is tied to the code pathwise: on identical parameter bits and RNG words the crate's value must lie in the rounding-inflated enclosure of the model and consume the same number of words (no statistics). Rejection samplers (Gamma, Beta, ziggurat primitives via C06, ...) have their models tied the same way; their density identities are proved only where listed in DESIGN.md (partial).",
